@@ -54,7 +54,7 @@ def _summary(db, chk, m):
     ctx = (OPS, T.TRUE, None)
     keys = (T.col(OPS, "cat"), T.col(OPS, "name"))
     gb = [e for e in runs[0].events if e["kind"] == "groupby-agg"]
-    fns = sorted(k.split("\x1f")[1] for e in gb for k in e["cols"] if "\x1f" in k)
+    fns = sorted(str(t[1]) for e in gb for t in e["cols"].values() if isinstance(t, tuple) and t and t[0] == "agg")          # read off the aggregate terms, whatever the spelling of the call
     chk.ob(rule, "events are aggregated per (cat, name) with exactly count and sum of dur", len(gb) == 1 and gb[0]["keys"] == ["cat", "name"] and fns == ["count", "sum"], where,
            found={"keys": [e["keys"] for e in gb], "functions": fns}, accepted={"keys": ["cat", "name"], "functions": ["count", "sum"]}, why="total_duration must be the SUM of the durations")
     from ..specs.discipline import narrowing_casts
@@ -92,7 +92,7 @@ def _extract(db, chk, m):
 
     for dev, want in (("CPU", {-1: True, 0: False, 1: False, 7: False}), ("GPU", {-1: False, 0: True, 1: True, 7: True}), ("ALL", {-1: True, 0: True, 1: True, 7: True})):
         I = Interp(db, call_hook=hook)
-        runs = [r for r in I.explore(ref, lambda I: {"self": Obj("self", attrs={"label": "L", "t": Obj("t")}), "rank": 1, "iteration": [5, 7],
+        runs = [r for r in I.explore(ref, lambda I: {"self": Obj("self", cls=(m, "LabeledTrace"), attrs={"label": "L", "t": Obj("t")}), "rank": 1, "iteration": [5, 7],
                                                      "device_type": ("enum", "DeviceType", dev)}) if r.raised is None]
         runs = [r for r in runs if isinstance(r.ret, Frame)]
         if not runs or len(runs) > 6:
